@@ -647,7 +647,7 @@ static void on_watchdog(int) {
   for (Task *t : W->tasks) if (t->state == T_RUNNABLE && t != W->current) others++;
   char b[200];
   int n = snprintf(b, sizeof b, "\nSTALL %s task=%d other_runnable=%d\n", others ? "SPIN" : "HANG", W->current ? W->current->id : -1, others);
-  if (write(1, b, (size_t)n) < 0) {}
+  if (syscall(SYS_write, 1, b, (size_t)n) < 0) {}  // never the interposed write(): its tables may be what the code under test corrupted
   syscall(SYS_exit_group, others ? 5 : 4);
 }
 static bool g_wd_armed = false;
